@@ -71,7 +71,7 @@ def labelset_nontrivial(labelset):
     return False
 
 
-def build_frames(labelset, src_rgb, slots=None):
+def build_frames(labelset, src_rgb, slots=None, multi_video=False):
     frames, predicted = [], []
     for f, t in enumerate(labelset):
         users, preds, drawn = [], [], []
@@ -86,13 +86,16 @@ def build_frames(labelset, src_rgb, slots=None):
         img = S.render(H, W, drawn, rgb=src_rgb)
         if src_rgb:
             img = np.round(img.astype(np.float64) * np.array(RGB_TINT)).astype(np.uint8)
-        frames.append({"image": img, "instances": users})
+        fr = {"image": img, "instances": users}
+        if multi_video:  # every labelled frame is frame 0 of its own video (frame indices collide across videos)
+            fr["video"] = f
+        frames.append(fr)
         predicted.append(preds)
     return frames, predicted
 
 
-def write_labelset(tmpdir, labelset, src_rgb, name, slots=None):
-    frames, predicted = build_frames(labelset, src_rgb, slots)
+def write_labelset(tmpdir, labelset, src_rgb, name, slots=None, multi_video=False):
+    frames, predicted = build_frames(labelset, src_rgb, slots, multi_video)
     sk = S.make_skeleton(K, EDGES)
     return S.write_labels(tmpdir, frames, sk, name=name, embed=True, predicted=predicted)
 
